@@ -759,10 +759,10 @@ theorem symbols_masses_kept (s s' : Sys K) (op : Op K) (h : op.apply s = .ok s')
     rw [List.getElem?_append_left hi]
 
 /-- The model is functional: a generator is a pure function of the input system, so the input is
-    unchanged *by construction* (this theorem is `rfl`; it is listed for completeness of the
-    property's clause list).  On the implementation the clause is checked by snapshot and
+    unchanged *by construction* (this theorem is `rfl` and says nothing about the implementation: hence
+    `_partial`; it is listed for completeness of the property's clause list).  On the implementation the clause is checked by snapshot and
     shared-memory tests in `harness/props/c15.py`. -/
-theorem input_unchanged (s : Sys K) (op : Op K) :
+theorem input_unchanged_partial (s : Sys K) (op : Op K) :
     (fun t : Sys K => (op.apply t, t)) s = (op.apply s, s) := rfl
 
 end any
@@ -1846,5 +1846,101 @@ example : vacancyF exSys none (1 : Rat) = .type ∧ substitutionalF exSys none (
     pointF exSys "v" none (3/2 : Rat) false true = .type ∧ pointF exSys "i" none (0 : Rat) false true = .assert := by
   decide +kernel
 
-end Atomman.C15
+/-! ### statement audit: non-vacuity, every hypothesis of the theorem instantiated on `exSys` -/
 
+private def audA0 : Atom Rat := { atype := 1, pos := ⟨1, 0, 0⟩, props := [[1/2]] }
+private def audA1 : Atom Rat := { atype := 2, pos := ⟨3, 2, 2⟩, props := [[3/2]] }
+
+/-- a statement about every atom of `exSys` follows from its two instances. -/
+private theorem exSys_all (P : Nat → Atom Rat → Prop) (h0 : P 0 audA0) (h1 : P 1 audA1) :
+    ∀ (j : Nat) b, exSys.atoms[j]? = some b → P j b := by
+  intro j b hb
+  rcases j with _ | _ | j
+  · have : b = audA0 := by simp [exSys] at hb; simpa [audA0, audA1] using hb.symm
+    subst this; exact h0
+  · have : b = audA1 := by simp [exSys] at hb; simpa [audA0, audA1] using hb.symm
+    subst this; exact h1
+  · simp [exSys] at hb
+
+-- `old_id_composes` (WF, a provenance entry `some (some k)` after two accepted insertions)
+example : oldAt (run exSys (idProv exSys) [.vac none (some 0) false (1/100), .int ⟨1/4, 1/4, 1/4⟩ true (1/100) {}]).1 0
+    = oldAt exSys 1 :=
+  (old_id_composes exSys (by simp [WF, exSys])
+    [.vac none (some 0) false (1/100), .int ⟨1/4, 1/4, 1/4⟩ true (1/100) {}] 0 1 (by decide +kernel)).2
+-- `old_id_composes_fresh`: its hypothesis
+example : exSys.old = none := rfl
+-- `site_of_image`: atom 0 seen one cell along -x and +y (both periodic), negative tolerance
+example : within exSys ⟨-3, 4, 0⟩ (-1) audA0 = true :=
+  site_of_image exSys audA0 ⟨-3, 4, 0⟩ (-1) (-1) 1 0 (by decide +kernel) (by decide +kernel) (by decide +kernel) (by decide +kernel)
+-- `pos_eq_index_cartesian`
+example : resolveSite exSys (some audA0.pos) none false (1/100) = resolveSite exSys none (some 0) false (1/100) :=
+  pos_eq_index_cartesian exSys 0 audA0 (1/100) (by decide +kernel)
+    (fun j b hne hb => exSys_all (fun j b => j ≠ 0 → within exSys audA0.pos (1/100) b = false)
+      (fun h => absurd rfl h) (fun _ => by decide +kernel) j b hb hne)
+-- `pos_eq_index_relative`: atom 1 (box-relative (1/2,1/2,1/2)) through the image one cell along +y
+example : resolveSite exSys (some ⟨1/2 + (0 : Int), 1/2 + (1 : Int), 1/2 + (0 : Int)⟩) none true (1/100) =
+    resolveSite exSys none (some ((1 : Nat) : Int)) true (1/100) :=
+  pos_eq_index_relative exSys 1 audA1 ⟨1/2, 1/2, 1/2⟩ (1/100) 0 1 0 (by decide +kernel) (by decide +kernel)
+    (by decide +kernel) (by decide +kernel) (by decide +kernel)
+    (fun j b hne hb => exSys_all (fun j b => j ≠ 1 →
+        within exSys (exSys.box.relToCart ⟨1/2 + (0 : Int), 1/2 + (1 : Int), 1/2 + (0 : Int)⟩) (1/100) b = false)
+      (fun _ => by decide +kernel) (fun h => absurd rfl h) j b hb hne)
+-- `refuse_absent_site`: a position 1/8 from atom 0, tolerance 1/100
+example : resolveSite exSys (some ⟨1 + 1/8, 0, 0⟩) none false (1/100) = .error .value :=
+  refuse_absent_site exSys ⟨1 + 1/8, 0, 0⟩ false (1/100)
+    (exSys_all (fun _ b => within exSys (toCart exSys false ⟨1 + 1/8, 0, 0⟩) (1/100) b = false)
+      (by decide +kernel) (by decide +kernel))
+-- `refuse_ambiguous_site`: the midpoint of the two atoms with a tolerance reaching both
+example : resolveSite exSys (some ⟨2, 1, 1⟩) none false 3 = .error .value :=
+  refuse_ambiguous_site exSys ⟨2, 1, 1⟩ false 3 0 1 audA0 audA1 (by decide +kernel) (by decide +kernel) (by decide +kernel)
+    (by decide +kernel) (by decide +kernel)
+-- `refuse_occupied_interstitial`: 1/200 from atom 0
+example : interstitial exSys ⟨1, 0, 1/200⟩ false (1/100) { atype := some 2 } = .error .value :=
+  refuse_occupied_interstitial exSys ⟨1, 0, 1/200⟩ false (1/100) { atype := some 2 } 0 audA0 (by decide +kernel)
+    (by decide +kernel)
+-- `refuse_same_type`: atom 1 has type 2
+example : substitutional exSys none (some (-1)) false (1/100) { atype := some 2 } = .error .value :=
+  refuse_same_type exSys none (some (-1)) false (1/100) { atype := some 2 } 1 audA1 (by decide +kernel)
+    (by decide +kernel) (by decide +kernel)
+-- `refusals_propagate`
+example : dumbbell exSys none (some 2) ⟨1/8, 0, 0⟩ false (1/100) {} = .error .value :=
+  (refusals_propagate exSys none (some 2) false (1/100) .value (by decide +kernel) {} ⟨1/8, 0, 0⟩).2.2
+-- `within_tie` / `within_mono` / `within_iff_isclose`: 1/128 off atom 0
+example : within exSys ⟨1 + 1/128, 0, 0⟩ (1/128) audA0 = true :=
+  within_tie exSys ⟨1 + 1/128, 0, 0⟩ (1/128) audA0 (by decide +kernel) (by decide +kernel)
+example : within exSys ⟨1 + 1/128, 0, 0⟩ (1/64) audA0 = true :=
+  within_mono exSys ⟨1 + 1/128, 0, 0⟩ (1/128) (1/64) audA0 (by decide +kernel) (by decide +kernel) (by decide +kernel)
+example : within exSys ⟨1 + 1/128, 0, 0⟩ (1/256) audA0 = false := by
+  have h := within_iff_isclose exSys ⟨1 + 1/128, 0, 0⟩ (1/256) audA0 (1/128) 7 (by decide +kernel) (by decide +kernel)
+  cases hw : within exSys ⟨1 + 1/128, 0, 0⟩ (1/256) audA0
+  · rfl
+  · exact absurd (h.mp hw) (by decide +kernel)
+-- `zero_tol_offsite`: no atom of `exSys` is exactly at (1 + 1/128, 0, 0)
+example : vacancyC (1/100) exSys (some ⟨1 + 1/128, 0, 0⟩) none false (some 0) = .error .value :=
+  (zero_tol_offsite (1/100) exSys ⟨1 + 1/128, 0, 0⟩ false {} ⟨0, 0, 0⟩
+    (exSys_all (fun _ b => dist2 exSys (toCart exSys false ⟨1 + 1/128, 0, 0⟩) b ≠ 0)
+      (by decide +kernel) (by decide +kernel))).1
+-- `interstitial_ok_iff_free`, `source_interstitial_ok_iff`: `exSys` is not empty
+example : exSys.atoms ≠ [] := by decide
+-- `refuse_bad_atype`
+example : (dumbbellC (1/100) exSys none (some 0) ⟨1/8, 0, 0⟩ false none { atype := some 0 }).isOk = false :=
+  (refuse_bad_atype (1/100) exSys none (some 0) ⟨0, 0, 0⟩ ⟨1/8, 0, 0⟩ false none { atype := some 0 } 0 rfl
+    (by decide +kernel)).2.2.1
+-- `atol_resolution`, `point_atol_passthrough`, `guardAtype_ok`: a keyword set with an admissible type
+example : ({ atype := some 3, extra := [("charge", [7])] } : Kw Rat).atypeOk = true := by decide
+-- `unknown_keyword_ignored` / `keyword_order_irrelevant`: their side conditions
+example : "nosuch" ∉ ["charge", "tag"] := by decide
+example : overrideProps ["charge", "tag"] [[(1 : Rat)], [2]] [("tag", [7]), ("charge", [9])] id
+    = overrideProps ["charge", "tag"] [[(1 : Rat)], [2]] [("charge", [9]), ("tag", [7])] id :=
+  keyword_order_irrelevant _ _ _ _ id (List.Perm.swap _ _ _) (by decide +kernel)
+-- `float_index_range_agrees` (after ≠ .value), `float_index_refused` (in range)
+example : floatIndex exSys.atoms.length (((2 : Int) : Int) : Rat) .type = .value :=
+  (float_index_range_agrees exSys 2 false (1/100) .type (by decide +kernel)).mpr (by decide +kernel)
+example : substitutionalF exSys none (-1/2 : Rat) = .index :=
+  (float_index_refused exSys (-1/2) (by decide +kernel)).2.1
+-- `dvect_scale` / `within_scale` / `search_scale_invariant`: a scale that is not a power of two
+example : resolveSite (exSys.scaled (3/7)) (some (V3.smul (3/7) ⟨1 + 1/128, 0, 0⟩)) none false ((3/7) * (1/128))
+    = resolveSite exSys (some ⟨1 + 1/128, 0, 0⟩) none false (1/128) :=
+  (search_scale_invariant (3/7) (by decide +kernel) exSys ⟨1 + 1/128, 0, 0⟩ none (1/128)).1
+
+end Atomman.C15
